@@ -147,6 +147,36 @@ def expected_ops(main, cleanup):
     return out
 
 
+def judge(f, r, old, new, ridx):
+    """the property on one fault run: the metafile path holds the complete original or the complete edited file.
+       f: fault, r: result of run_one, old/new: original bytes / bytes of the fault-free edit, ridx: index of the replace event"""
+    after = r["after"]
+    ok = True
+    why = ""
+    if after is None:
+        ok, why = False, "metafile missing"
+    elif f.get("unencodable"):
+        if r["rc"] == 0:
+            # the value turned out to be encodable for pyben (e.g. a list inside): then a complete file is required
+            try:
+                oracle.bdecode_strict(after)
+            except Exception as e:  # noqa
+                ok, why = False, f"edit with odd value returned normally and left non-canonical bytes: {e}"
+        elif after != old:
+            ok, why = False, "unencodable value: the metafile is no longer the original"
+    elif after == old:
+        if r["rc"] == 0:
+            ok, why = False, "edit returned normally but the metafile is unchanged"
+    elif after == new:
+        if r["rc"] == 3 and f["kind"] in ("raise", "shortwrite") and ridx is not None \
+                and (f["event_index"] < ridx or (f["event_index"] == ridx and f.get("when", "before") == "before")):
+            ok, why = False, "error raised before the replace, yet the edited metafile is in place"
+    else:
+        ok = False
+        why = f"metafile holds {len(after)} bytes that are neither the original ({len(old)}) nor the edited ({len(new)}) file"
+    return ok, why
+
+
 def run(ctx, model_ok):
     import gen_effects
     try:
@@ -167,7 +197,7 @@ def run(ctx, model_ok):
                 n += 1
                 ref = run_one(os.path.join(tmp, f"w{n}"), mf, req, {"kind": "none"})
                 if ref["rc"] != 0 or ref["after"] is None:
-                    ctx.fail("edit-failed-without-fault", {"metafile": label, "request": req}, "edit succeeds", ref["out"])
+                    ctx.fail("edit-failed-without-fault", {"metafile": label, "request": req, "base_hex": old.hex()}, "edit succeeds", ref["out"])
                     continue
                 new = ref["after"]
                 obs = canon_events(ref["events"])
@@ -178,7 +208,7 @@ def run(ctx, model_ok):
                     ctx.traces_validated += 1
                     if obs != exp:
                         ctx.disagree("generated op list of edit_torrent vs observed filesystem events",
-                                     {"metafile": label, "request": req}, exp, obs)
+                                     {"metafile": label, "request": req, "base_hex": old.hex()}, exp, obs)
                 if ref["left"] != ["m.torrent"]:
                     ctx.notes.append(f"files left beside the metafile after a successful edit: {ref['left']}")
                 nev = len(ref["events"])
@@ -216,37 +246,175 @@ def run(ctx, model_ok):
             kind = f["kind"] + (":" + f.get("exc", "") if f.get("exc") else "") + (":" + f.get("then", "") if f.get("then") else "") \
                 + (":" + f.get("when", "") if f.get("when") else "")
             desc = {"metafile": label, "request": req, "fault": f}
-            ok = True
-            why = ""
-            if after is None:
-                ok, why = False, "metafile missing"
-            elif f.get("unencodable"):
-                if r["rc"] == 0:
-                    # the value turned out to be encodable for pyben (e.g. a list inside): then a complete file is required
-                    try:
-                        oracle.bdecode_strict(after)
-                    except Exception as e:  # noqa
-                        ok, why = False, f"edit with odd value returned normally and left non-canonical bytes: {e}"
-                elif after != old:
-                    ok, why = False, "unencodable value: the metafile is no longer the original"
-            elif after == old:
-                if r["rc"] == 0:
-                    ok, why = False, "edit returned normally but the metafile is unchanged"
-            elif after == new:
-                if r["rc"] == 3 and f["kind"] in ("raise", "shortwrite") and ridx is not None \
-                        and (f["event_index"] < ridx or (f["event_index"] == ridx and f.get("when", "before") == "before")):
-                    ok, why = False, "error raised before the replace, yet the edited metafile is in place"
-            else:
-                ok = False
-                why = f"metafile holds {len(after)} bytes that are neither the original ({len(old)}) nor the edited ({len(new)}) file"
+            ok, why = judge(f, r, old, new, ridx)
             if not ok:
-                ctx.fail("edit-fault:" + kind.split(":")[0], desc, "complete original or complete edited metafile",
+                # the metafile's bytes make the replay exact (the payload behind it is random per run)
+                ctx.fail("edit-fault:" + kind.split(":")[0], dict(desc, base_hex=old.hex()), "complete original or complete edited metafile",
                          {"rc": r["rc"], "out": r["out"], "why": why, "len_after": None if after is None else len(after)})
             ctx.case(key=(label, rname, json.dumps(f, sort_keys=True)), classes=["fault " + kind, "metafile " + label])
         ctx.exhaustive = True
         ctx.extra["fault_runs"] = len(jobs)
 
 
+# --------------------------------------------------------------------------- replay
+def replay_finding(pid, data):
+    """pinned reproducer recorded by check.py ({"kind": "e2e", "reproducer": "harness/repro.py D10", "finding": "D10"}):
+       run the probe in a fresh interpreter as check.run_repro does; PRESENT -> 1, absent -> 0, anything else -> 2"""
+    fid = data.get("finding") or str(data.get("reproducer", "")).split()[-1]
+    if not fid:
+        print("replay: cannot rebuild input of kind e2e (no finding id recorded)")
+        return 2
+    p = subprocess.run([core.PY, os.path.join(core.VERIF, "harness", "repro.py"), fid],
+                       env=core.impl_env({"HOME": "/nonexistent-home"}), capture_output=True, text=True, timeout=600)
+    line = next((l for l in p.stdout.splitlines() if l.split(" ", 1)[0] == fid), "")
+    print(f"[{pid} replay] pinned reproducer harness/repro.py {fid} against {core.REPO}: {line or 'no output ' + p.stderr[-300:]}")
+    st = (line.split(" ", 2) + ["", ""])[1]
+    if st == "PRESENT":
+        return 1
+    if st == "absent":
+        return 0
+    print(f"replay: cannot rebuild input of kind e2e (reproducer {fid} did not answer PRESENT or absent)")
+    return 2
+
+
+REBUILDABLE = ("translator refused", "translator crashed", "coq build of", "theorem audit failed", "forbidden vernacular",
+               "coqchk ", "OCaml driver for area")
+
+
+def replay_broken(ctx, pid, recorded):
+    """broken obligations (translator / Coq build / theorem audit / driver) are functions of the implementation's source:
+       re-run phases 1-2 of ./check against core.REPO and report whether any obligation is broken NOW"""
+    import importlib
+    import modelrun
+    for b in recorded:
+        print(f"[{pid} replay] recorded broken obligation: {str(b)[:400]}")
+    rc = 0
+    other = [b for b in recorded if not str(b).startswith(REBUILDABLE) and "driver" not in str(b)]
+    for b in other:
+        kind = str(b).split(":")[0][:60]
+        print(f"replay: cannot rebuild input of kind broken obligation {kind!r} (it is not a function of a recorded input)")
+        rc = 2
+    import check as checkmod
+    mod = importlib.import_module(f"props.{pid.lower()}")
+    fresh = core.Ctx(pid, ctx.tier, ctx.seed)
+    with core.Lock("pipeline"):
+        fresh, audit, ok = checkmod._build_phase(mod, pid, fresh)
+    if ok:
+        for area in getattr(mod, "AREAS", []):
+            q = subprocess.run([modelrun.binary(area)], input="selftest\n", capture_output=True, text=True, timeout=300)
+            if q.returncode != 0 or "SELFTEST OK" not in q.stdout:
+                fresh.broken.append(f"extracted model driver for area {area} fails its self-test")
+    print(f"[{pid} replay] regenerated coq/Gen from {core.REPO}, rebuilt Props/{pid}.vo, audited Print Assumptions: "
+          f"theorems {len(audit['discharged']) if audit else 0}/{len(audit['theorems']) if audit else '?'}, "
+          f"broken now: {len(fresh.broken)}")
+    for b in fresh.broken:
+        print(f"[{pid} replay] STILL BROKEN: {b[:600]}")
+    if fresh.broken:
+        return 1
+    print(f"[{pid} replay] every proof obligation of {pid} is discharged for this tree")
+    return rc
+
+
+def _base(tmp, base):
+    src = os.path.join(tmp, "base.torrent")
+    if not os.path.exists(src):
+        with open(src, "wb") as fd:
+            fd.write(base)
+    return src
+
+
+def _reference(tmp, base, req):
+    """fault-free run on a copy of the recorded metafile: (result, replace index)"""
+    k = len(os.listdir(tmp))
+    ref = run_one(os.path.join(tmp, f"ref{k}"), _base(tmp, base), req, {"kind": "none"})
+    ridx = next((e["i"] for e in ref["events"] if e["op"] in ("replace", "rename") and "PM" in e["paths"][1:]), None)
+    return ref, ridx
+
+
+def _replay_fault(inp, tmp):
+    base, req, f = bytes.fromhex(inp["base_hex"]), inp["request"], inp["fault"]
+    print(f"[C17 replay] metafile {inp.get('metafile')} ({len(base)} bytes), request {json.dumps(req)}, fault {json.dumps(f)}")
+    new = ridx = None
+    if not f.get("unencodable"):
+        ref, ridx = _reference(tmp, base, req)
+        if ref["rc"] != 0 or ref["after"] is None:
+            print(f"[C17 replay] VIOLATION edit-failed-without-fault: exit {ref['rc']} {ref['out']}")
+            return 1
+        new = ref["after"]
+        print(f"[C17 replay] fault-free run: {len(new)} bytes written, operations {canon_events(ref['events'])}, replace at index {ridx}")
+    r = run_one(os.path.join(tmp, "fault"), _base(tmp, base), req, f)
+    ok, why = judge(f, r, base, new, ridx)
+    after = r["after"]
+    print(f"[C17 replay] under the fault: exit {r['rc']} {r['out']!r}; operations reached {canon_events(r['events'])}; metafile path holds "
+          + ("NOTHING" if after is None else f"{len(after)} bytes = " + ("the original" if after == base else "the edited file" if after == new
+                                                                        else "NEITHER the original nor the edited file"))
+          + f"; beside it: {[x for x in r['left'] if x != 'm.torrent']}")
+    if not ok:
+        print("[C17 replay] VIOLATION", "edit-fault:" + f["kind"], "-", why)
+    return 0 if ok else 1
+
+
+def _replay_trace(inp, tmp):
+    """generated op list of edit_torrent vs the filesystem events of a real fault-free edit"""
+    import gen_effects
+    base, req = bytes.fromhex(inp["base_hex"]), inp["request"]
+    try:
+        gmain, gcleanup = gen_effects.EditOps(core.REPO).run()
+    except Exception as e:  # noqa
+        print(f"[C17 replay] STILL BROKEN: translator crashed on edit.py: {type(e).__name__}: {e}")
+        return 1
+    ref, ridx = _reference(tmp, base, req)
+    if ref["rc"] != 0 or ref["after"] is None:
+        print(f"[C17 replay] VIOLATION edit-failed-without-fault: exit {ref['rc']} {ref['out']}")
+        return 1
+    exp, obs = expected_ops(gmain, gcleanup), canon_events(ref["events"])
+    print(f"[C17 replay] metafile {inp.get('metafile')}, request {json.dumps(req)}\n   generated: {exp}\n   observed : {obs}")
+    print("[C17 replay] " + ("translator and observed events agree" if exp == obs else "translator and observed events DISAGREE"))
+    return 0 if exp == obs else 1
+
+
 def replay(ctx, data):
-    print(json.dumps(data, indent=1)[:3000])
-    return 0
+    """re-runs the recorded (metafile bytes, request, fault) in a fresh interpreter and judges again; 1 violated, 0 holds, 2 cannot rebuild"""
+    kind = str(data.get("kind"))
+    inp = data.get("input") if isinstance(data.get("input"), dict) else {}
+    print(f"[C17 replay] kind={kind} implementation under test: {core.REPO}")
+    rcs = []
+
+    def cannot(k, why):
+        print(f"replay: cannot rebuild input of kind {k} ({why})")
+        return 2
+    with core.Scratch("vc17r_") as tmp:
+        os.environ["HOME"] = tmp
+        if data.get("finding") or data.get("reproducer"):
+            rcs.append(replay_finding("C17", data))
+        elif kind.startswith("edit-fault:"):
+            if "base_hex" not in inp or "fault" not in inp or "request" not in inp:
+                rcs.append(cannot(kind, "the bytes of the metafile were not recorded in this file"))
+            else:
+                rcs.append(_replay_fault(inp, tmp))
+        elif kind == "edit-failed-without-fault":
+            if "base_hex" not in inp or "request" not in inp:
+                rcs.append(cannot(kind, "the bytes of the metafile were not recorded in this file"))
+            else:
+                rcs.append(_replay_fault(dict(inp, fault={"kind": "none"}), tmp))
+        elif kind == "proof-or-correspondence-broken" or "what" in data:
+            dis = data.get("disagreements") or ([data] if "what" in data else [])
+            for d in dis[:5]:
+                di = d.get("input") if isinstance(d.get("input"), dict) else {}
+                if not str(d.get("what", "")).startswith("generated op list of edit_torrent"):
+                    rcs.append(cannot("disagreement " + repr(d.get("what")), "unknown correspondence"))
+                elif "base_hex" not in di or "request" not in di:
+                    rcs.append(cannot("disagreement generated op list vs observed events", "the bytes of the metafile were not recorded"))
+                else:
+                    rcs.append(_replay_trace(di, tmp))
+            if data.get("broken"):
+                rcs.append(replay_broken(ctx, "C17", data["broken"]))
+            if not dis and not data.get("broken"):
+                print("[C17 replay] the file records neither a disagreement nor a broken obligation: nothing to replay")
+                rcs.append(2)
+        else:
+            rcs.append(cannot(kind, "unknown kind"))
+    rc = 1 if 1 in rcs else (2 if 2 in rcs or not rcs else 0)
+    print("[C17 replay] verdict:", {0: "the property holds on this input", 1: "property VIOLATED on this input",
+                                    2: "could not be replayed exactly"}[rc])
+    return rc
